@@ -5,6 +5,9 @@
     process_runner.py            ProcessRunner.runner_loop_iteration
                                  + ProcessRunner._reclaim_available_slots       -> pr_loop_ops
     <each>.get_active_child_runner_ids                                          -> *_hb_sel
+    _spawn_thread_runner_process / _spawn_persistent_process / the ProcessRunner loop body
+    (+ runner_context.py RunnerContext.new_child_context): where the runner id under which a
+    new worker is tracked comes from                                            -> *_id_src
     base_runner.py               BaseRunner._report_child_runner_heartbeats     -> base_reports_active_ids
 
 A loop body is translated statement by statement into the pool operations of Model/Pool.v
@@ -26,6 +29,7 @@ FILES = {
     "ppr": ("pynenc/runner/persistent_process_runner.py", "PersistentProcessRunner"),
     "pr": ("pynenc/runner/process_runner.py", "ProcessRunner"),
     "base": ("pynenc/runner/base_runner.py", "BaseRunner"),
+    "ctx": ("pynenc/runner/runner_context.py", "RunnerContext"),
 }
 
 # normalised-AST hashes of the hand-mirrored helpers (strings blanked, docstrings dropped)
@@ -152,6 +156,24 @@ def _is_untrack(n: ast.AST) -> bool:
     return False
 
 
+def _is_plain_untrack(s: ast.stmt) -> bool:
+    """an unconditional `self.child_runner_ids.pop(...)` / `del self.child_runner_ids[...]` statement"""
+    return (isinstance(s, ast.Expr) and _is_untrack(s.value)) or (isinstance(s, ast.Delete) and _is_untrack(s))
+
+
+def _is_bookkeeping(s: ast.stmt) -> bool:
+    """`self.<something else>.<method>(...)` / `self.<helper>(...)` as a statement that never mentions child_runner_ids
+    (e.g. _safe_remove_shared_state(rid), a free list): no effect on which workers are tracked"""
+    if not (isinstance(s, ast.Expr) and isinstance(s.value, ast.Call) and isinstance(s.value.func, ast.Attribute)):
+        return False
+    v = s.value.func
+    while isinstance(v, ast.Attribute):
+        v = v.value
+    if not (isinstance(v, ast.Name) and v.id == "self"):
+        return False
+    return not _contains(s, lambda n: isinstance(n, ast.Attribute) and n.attr == "child_runner_ids")
+
+
 def _calls_self(node: ast.AST, name: str) -> bool:
     return _contains(node, lambda n: isinstance(n, ast.Call) and isinstance(n.func, ast.Attribute)
                      and n.func.attr == name and isinstance(n.func.value, ast.Name) and n.func.value.id == "self")
@@ -231,7 +253,8 @@ def ppr_loop(m: dict[str, ast.FunctionDef]) -> list[str]:
                 nxt = body[i + 1] if i + 1 < len(body) else None
                 if not (isinstance(nxt, ast.For) and isinstance(nxt.iter, ast.Name) and nxt.iter.id == var
                         and _contains(nxt, _is_untrack)
-                        and all(_is_logging(s) or (isinstance(s, ast.Expr) and _is_untrack(s.value)) for s in nxt.body)):
+                        and not nxt.orelse and all(_is_logging(s) or _is_plain_untrack(s) or _is_bookkeeping(s) for s in nxt.body)
+                        and sum(1 for s in nxt.body if _is_plain_untrack(s)) == 1):
                     raise TranslateError("PPR: dead ids are not popped right after being collected")
                 ops.append("LPrune")
                 i += 2
@@ -321,6 +344,172 @@ def _reclaim_ops(m: dict[str, ast.FunctionDef]) -> list[str]:
     return ops
 
 
+# ------------------------------------------------------------------ where do the ids of new workers come from
+def _is_uuid4_call(e: ast.AST) -> bool:
+    """uuid.uuid4() / uuid4()"""
+    if not (isinstance(e, ast.Call) and not e.args and not e.keywords):
+        return False
+    f = e.func
+    return (isinstance(f, ast.Attribute) and f.attr == "uuid4" and isinstance(f.value, ast.Name) and f.value.id == "uuid") \
+        or (isinstance(f, ast.Name) and f.id == "uuid4")
+
+
+def _is_fresh_id(e: ast.AST) -> bool:
+    """str(uuid4()) / uuid4().hex / f"...{uuid4()}..." : a value nobody has seen before"""
+    if isinstance(e, ast.Call) and isinstance(e.func, ast.Name) and e.func.id == "str" and len(e.args) == 1 and not e.keywords:
+        return _is_uuid4_call(e.args[0])
+    if isinstance(e, ast.Attribute) and e.attr == "hex":
+        return _is_uuid4_call(e.value)
+    if isinstance(e, ast.JoinedStr):
+        return any(isinstance(v, ast.FormattedValue) and (_is_uuid4_call(v.value) or _is_fresh_id(v.value)) for v in e.values)
+    return False
+
+
+def _alternatives(e: ast.AST) -> list[ast.AST]:
+    if isinstance(e, ast.IfExp):
+        return _alternatives(e.body) + _alternatives(e.orelse)
+    if isinstance(e, ast.BoolOp) and isinstance(e.op, ast.Or):
+        return [a for v in e.values for a in _alternatives(v)]
+    return [e]
+
+
+_STORE_READS = {"pop", "popleft", "popitem", "get", "setdefault"}
+
+
+def _classify_id_alternatives(alts: list[ast.AST], where: str, methods: dict | None = None, depth: int = 0) -> str:
+    """all alternatives fresh -> IdFresh; some alternative is a value kept from earlier (taken out of a container, an
+    attribute, a name, a constant/f-string without uuid4) -> IdRecycled; a call we cannot look into -> TranslateError."""
+    if not alts:
+        raise TranslateError(f"{where}: no source for the worker id found")
+    verdict = "IdFresh"
+    for a in alts:
+        if _is_fresh_id(a):
+            continue
+        if isinstance(a, ast.Call):
+            f = a.func
+            helper = (methods or {}).get(f.attr) if (isinstance(f, ast.Attribute) and isinstance(f.value, ast.Name)
+                                                    and f.value.id in ("self", "cls")) else None
+            if helper is not None and depth < 3:
+                # an id helper of the same class: its return values are the alternatives
+                rets = [r.value for r in ast.walk(helper) if isinstance(r, ast.Return)]
+                if not rets or any(r is None for r in rets):
+                    raise TranslateError(f"{where}: id helper {f.attr} has an empty return")
+                inner = []
+                for r in rets:
+                    if isinstance(r, ast.Name) and r.id not in _fn_args(helper):
+                        inner += [x for v in _assigned_values(helper, r.id) for x in _alternatives(v)]
+                    else:
+                        inner += _alternatives(r)
+                if _classify_id_alternatives(inner, f"{where} -> {f.attr}", methods, depth + 1) == "IdRecycled":
+                    verdict = "IdRecycled"
+                continue
+            if not (isinstance(f, ast.Attribute) and f.attr in _STORE_READS):
+                raise TranslateError(f"{where}: worker id comes from a call that is not recognised: {ast.dump(a)[:100]}")
+        elif isinstance(a, ast.Constant) and a.value is None:
+            raise TranslateError(f"{where}: worker id may be None")
+        verdict = "IdRecycled"
+    return verdict
+
+
+def _assigned_values(fn: ast.AST, var: str) -> list[ast.AST]:
+    vals = []
+    for n in ast.walk(fn):
+        if isinstance(n, ast.Assign) and any(isinstance(t, ast.Name) and t.id == var for t in n.targets):
+            vals.append(n.value)
+        elif isinstance(n, ast.AnnAssign) and isinstance(n.target, ast.Name) and n.target.id == var and n.value is not None:
+            vals.append(n.value)
+        elif isinstance(n, ast.NamedExpr) and n.target.id == var:
+            vals.append(n.value)
+        elif isinstance(n, (ast.For, ast.comprehension)) and _contains(n.target, lambda x: isinstance(x, ast.Name) and x.id == var):
+            raise TranslateError(f"worker id variable {var} is a loop variable")
+    return vals
+
+
+def _tracking_keys(fn: ast.AST) -> list[ast.AST]:
+    """K of every `self.child_runner_ids[K] = ...` in fn"""
+    keys = []
+    for n in ast.walk(fn):
+        if isinstance(n, ast.Assign):
+            for t in n.targets:
+                if isinstance(t, ast.Subscript) and _is_self_attr(t.value, "child_runner_ids"):
+                    keys.append(t.slice)
+    return keys
+
+
+def _fn_args(fn: ast.FunctionDef) -> set[str]:
+    a = fn.args
+    return {x.arg for x in a.posonlyargs + a.args + a.kwonlyargs} | ({a.vararg.arg} if a.vararg else set()) \
+        | ({a.kwarg.arg} if a.kwarg else set())
+
+
+def spawn_id_src(fn: ast.FunctionDef, where: str, methods: dict | None = None) -> str:
+    """MTR/PPR spawn helper: the key under which the new process is tracked is a local name; classify its sources."""
+    keys = _tracking_keys(fn)
+    if len(keys) != 1 or not isinstance(keys[0], ast.Name):
+        raise TranslateError(f"{where}: expected exactly one `self.child_runner_ids[<name>] = ...`")
+    var = keys[0].id
+    if var in _fn_args(fn):
+        raise TranslateError(f"{where}: the worker id is a parameter")
+    alts = [a for v in _assigned_values(fn, var) for a in _alternatives(v)]
+    return _classify_id_alternatives(alts, where, methods)
+
+
+def _new_child_context_default_fresh(ctx_m: dict[str, ast.FunctionDef]) -> bool:
+    """RunnerContext.new_child_context(runner_cls, runner_id=None): runner_id=runner_id or str(uuid.uuid4())"""
+    fn = ctx_m.get("new_child_context")
+    if fn is None:
+        raise TranslateError("RunnerContext.new_child_context missing")
+    for n in ast.walk(fn):
+        if isinstance(n, ast.Call) and isinstance(n.func, ast.Name) and n.func.id == "RunnerContext":
+            for kw in n.keywords:
+                if kw.arg == "runner_id":
+                    alts = _alternatives(kw.value)
+                    given = [a for a in alts if isinstance(a, ast.Name) and a.id == "runner_id"]
+                    rest = [a for a in alts if a not in given]
+                    if len(given) == 1 and rest and all(_is_fresh_id(a) for a in rest):
+                        return True
+                    raise TranslateError("RunnerContext.new_child_context: default runner id is not `runner_id or str(uuid.uuid4())`")
+    raise TranslateError("RunnerContext.new_child_context: RunnerContext(runner_id=...) not found")
+
+
+def pr_id_src(m: dict[str, ast.FunctionDef], ctx_m: dict[str, ast.FunctionDef]) -> str:
+    """ProcessRunner loop: tracked under <ctx>.runner_id with <ctx> = self.runner_context.new_child_context(cls[, id])"""
+    fn = m["runner_loop_iteration"]
+    where = "ProcessRunner.runner_loop_iteration"
+    keys = _tracking_keys(fn)
+    if len(keys) != 1:
+        raise TranslateError(f"{where}: expected exactly one `self.child_runner_ids[...] = ...`")
+    k = keys[0]
+    if isinstance(k, ast.Name):
+        if k.id in _fn_args(fn):
+            raise TranslateError(f"{where}: the worker id is a parameter")
+        return _classify_id_alternatives([a for v in _assigned_values(fn, k.id) for a in _alternatives(v)], where, m)
+    if not (isinstance(k, ast.Attribute) and k.attr == "runner_id" and isinstance(k.value, ast.Name)):
+        raise TranslateError(f"{where}: tracking key is not <ctx>.runner_id")
+    vals = _assigned_values(fn, k.value.id)
+    if len(vals) != 1:
+        raise TranslateError(f"{where}: the reserved context is not assigned exactly once")
+    call = vals[0]
+    if not (isinstance(call, ast.Call) and isinstance(call.func, ast.Attribute) and call.func.attr == "new_child_context"
+            and _is_self_attr(call.func.value, "runner_context")):
+        raise TranslateError(f"{where}: the reserved context does not come from self.runner_context.new_child_context(...)")
+    given = [kw.value for kw in call.keywords if kw.arg == "runner_id"] + list(call.args[1:2])
+    if any(kw.arg is None for kw in call.keywords) or any(isinstance(a, ast.Starred) for a in call.args):
+        raise TranslateError(f"{where}: new_child_context called with unpacked arguments")
+    if not given or (isinstance(given[0], ast.Constant) and given[0].value is None):
+        _new_child_context_default_fresh(ctx_m)
+        return "IdFresh"
+    e = given[0]
+    if isinstance(e, ast.Name) and e.id not in _fn_args(fn):
+        alts = [a for v in _assigned_values(fn, e.id) for a in _alternatives(v)]
+    else:
+        alts = _alternatives(e)
+    # `X or None` style fall-through to the default of new_child_context
+    alts = [a for a in alts if not (isinstance(a, ast.Constant) and a.value is None)]
+    _new_child_context_default_fresh(ctx_m)
+    return _classify_id_alternatives(alts, where, m)
+
+
 def base_reports_active(m: dict[str, ast.FunctionDef]) -> bool:
     """if ids := self.get_active_child_runner_ids(): self.app.orchestrator.register_runner_heartbeats(ids)"""
     b = _body(m["_report_child_runner_heartbeats"])
@@ -340,7 +529,7 @@ def base_reports_active(m: dict[str, ast.FunctionDef]) -> bool:
 
 
 def parse(repo: str) -> dict:
-    meth = {k: _methods(open(f"{repo}/{path}").read(), cls) for k, (path, cls) in FILES.items()}
+    meth = {k: _methods(open(f"{repo}/{path}").read(), cls) for k, (path, cls) in FILES.items() if k != "ctx"}
     for k, need in (("mtr", ["runner_loop_iteration", "get_active_child_runner_ids"]),
                     ("ppr", ["runner_loop_iteration", "get_active_child_runner_ids"]),
                     ("pr", ["runner_loop_iteration", "get_active_child_runner_ids"]),
@@ -401,8 +590,49 @@ def translate(repo: str) -> tuple[str, dict]:
     return emit(p), info
 
 
+# ------------------------------------------------------------------ second generated file: gen/PoolIds_gen.v
+def parse_ids(repo: str) -> dict:
+    meth = {k: _methods(open(f"{repo}/{FILES[k][0]}").read(), FILES[k][1]) for k in ("mtr", "ppr", "pr", "ctx")}
+    for k, n in (("mtr", "_spawn_thread_runner_process"), ("ppr", "_spawn_persistent_process"),
+                 ("pr", "runner_loop_iteration"), ("ctx", "new_child_context")):
+        if n not in meth[k]:
+            raise TranslateError(f"{FILES[k][1]}.{n} not found")
+    return {
+        "mtr_id_src": spawn_id_src(meth["mtr"]["_spawn_thread_runner_process"], "MultiThreadRunner._spawn_thread_runner_process",
+                                   meth["mtr"]),
+        "ppr_id_src": spawn_id_src(meth["ppr"]["_spawn_persistent_process"], "PersistentProcessRunner._spawn_persistent_process",
+                                   meth["ppr"]),
+        "pr_id_src": pr_id_src(meth["pr"], meth["ctx"]),
+    }
+
+
+def emit_ids(p: dict) -> str:
+    return "\n".join([
+        "(* GENERATED by harness/translate/pool_loops.py (translate_ids) from the spawn code of the three process runners:",
+        "   MultiThreadRunner._spawn_thread_runner_process, PersistentProcessRunner._spawn_persistent_process,",
+        "   ProcessRunner.runner_loop_iteration (+ RunnerContext.new_child_context).  Do not edit: rewritten on every check run. *)",
+        "From PV Require Import Model.Pool.",
+        "",
+        "(* where the runner id under which a newly spawned worker is tracked comes from *)",
+        f"Definition mtr_id_src : idsrc := {p['mtr_id_src']}.",
+        f"Definition ppr_id_src : idsrc := {p['ppr_id_src']}.",
+        f"Definition pr_id_src : idsrc := {p['pr_id_src']}.",
+        "",
+    ])
+
+
+def translate_ids(repo: str) -> tuple[str, dict]:
+    p = parse_ids(repo)
+    return emit_ids(p), dict(p)
+
+
 if __name__ == "__main__":
     import sys
-    text, info = translate(sys.argv[1] if len(sys.argv) > 1 else "/repo")
-    print(text)
-    print(info, file=sys.stderr)
+    repo = sys.argv[1] if len(sys.argv) > 1 else "/repo"
+    for fn in (translate, translate_ids):
+        try:
+            text, info = fn(repo)
+            print(text)
+            print(info, file=sys.stderr)
+        except TranslateError as ex:
+            print(f"{fn.__name__}: TranslateError: {ex}", file=sys.stderr)
